@@ -6,7 +6,7 @@ prop, k, needs = sys.argv[1], sys.argv[2], sys.argv[3]
 src = '/tmp/out-%s/%s' % (prop, k)
 rnd = ''
 if prop.endswith('b'):          # second independent round: /tmp/out-C02b/m1 -> seeded/C02-r4m1
-    rnd, prop_dir, prop = 'r4', prop, prop[:-1]
+    rnd, prop_dir, prop = os.environ.get('ROUND', 'r4'), prop, prop[:-1]
     k_id = rnd + k
 else:
     prop_dir, k_id = prop, k
